@@ -156,7 +156,11 @@ Section Yaml.
   (* the public importers replace whatever the root held (DP2 fixed) *)
   Theorem import_document_replaces root t :
     wf t -> tree_text_ok t = true -> good (import_document (rt (yaml_export t)) root) t.
-  Proof. intros Hw Ht. unfold import_document. rewrite vdelete_dot. now apply yaml_roundtrip. Qed.
+  Proof.
+    intros Hw Ht. unfold import_document. destruct (yaml_roundtrip t Hw Ht) as [Ha Hs].
+    destruct (yaml_import (rt (yaml_export t)) NNull) as [r ok]. cbn [fst snd] in Ha, Hs. subst ok.
+    split; [exact Ha|reflexivity].
+  Qed.
 
   (* ---------------------------------------------------------------- a whole calibration file *)
   (* the abstract non-property entries: keys are valid text, different from "properties" and "name" *)
